@@ -18,10 +18,16 @@ RULE = ("graphs N<=3 with <=2 properties per element kind (all property kinds) x
         "then once for EVERY store mutation k (set / set_if_not_exists / delete / delete_dir in program order) with an OSError injected at k; "
         "the surviving store is dumped and judged by validate_structure + read_to_memory; plus structurally invalid inputs (wrong lengths, "
         "stale metadata, mixed var-length) without faults; entry points write_arrays (tied to the Coq model), write_dicts and geff.write "
-        "for networkx (oracle only); non-trivial = trace of >= 10 mutations; distinct by structural input")
+        "for networkx (oracle only); non-trivial = trace of >= 10 mutations; distinct by structural input; "
+        "entry points on a directory target (harness/c05_entries.py, tied to Entry.v): from_ctc_to_geff (label volume none / inside), "
+        "from_trackmate_xml_to_geff, write_dicts, Nx/Rx/Sg backend writers called directly, the spatial-graph writer through geff.write, on "
+        "fresh / foreign / geff / geff-beside-foreign directories: failures injected below the path (every mutation of a LocalStore rooted in "
+        "the target incl. directory creation, and delete_geff's rmtree)")
 EXHAUSTIVE_BLOCKS = ["per case: every mutation index of the write (fault_enumeration is exhaustive for the case)"]
 ASSUMPTIONS = ["granularity = zarr Store API calls (set, set_if_not_exists, delete, delete_dir as one call) on a MemoryStore; torn single-key writes, "
                "the per-file order inside delete_dir / shutil.rmtree and multi-chunk arrays are below the model",
+               "directory targets: mutations are serialised and storage stays broken from mutation k on (zarr issues some writes concurrently); "
+               "TrackMate writes its property columns in Python-set order: its trace obligation is checked on the arrays in the order handed over",
                "the Coq model's states are tree-level (one per zarr operation geff issues); every model state must occur among the real crash "
                "states, and every real crash state that the library recognises must be the new or the previous graph"]
 
